@@ -266,3 +266,112 @@ func posOf(in ssa.Instruction) token.Pos {
 	}
 	return in.Parent().Pos()
 }
+
+// checkInsertIfAbsent decides, for one function and one data-map field: every write to the map
+// lies on the absent edge of a comma-ok lookup of the same key (and cannot be reached from the
+// existing-key edge); the existing-key branch never writes the map and contains a comparison
+// whose failing edge rejects (returns or sends a non-nil error).
+func checkInsertIfAbsent(c *rt.Ctx, fn *ssa.Function, field string) {
+	lookups := func() []*ssa.Lookup {
+		var out []*ssa.Lookup
+		for _, in := range an.Instrs(fn, false) {
+			if lk, ok := in.(*ssa.Lookup); ok && lk.CommaOk && an.IsMapType(lk.X.Type()) {
+				if k, _, ok := an.FieldOf(lk.X); ok && k == field {
+					out = append(out, lk)
+				}
+			}
+		}
+		return out
+	}()
+	okOf := func(lk *ssa.Lookup) ssa.Value {
+		for _, ref := range *lk.Referrers() {
+			if ex, ok := ref.(*ssa.Extract); ok && ex.Index == 1 {
+				return ex
+			}
+		}
+		return nil
+	}
+	ups := mapUpdates(fn, isFieldMap(field))
+	if len(ups) == 0 || len(lookups) == 0 {
+		c.Unsure(an.FuncName(fn)+" "+field, fn.Pos(), "expected a comma-ok lookup and an insertion into "+field)
+		return
+	}
+	for _, up := range ups {
+		good := false
+		for _, lk := range lookups {
+			okv := okOf(lk)
+			if okv == nil || !an.Equiv(lk.Index, up.Key) {
+				continue
+			}
+			for _, cd := range an.CondsOn(fn, okv) {
+				if cd.Other == nil && cd.Succ(false).Dominates(up.Block()) && !an.CanReach(cd.Succ(true), up.Block(), nil) {
+					good = true
+				}
+			}
+		}
+		c.Check(an.FuncName(fn)+" insert "+field, posOf(up), good, "write to the data map is not confined to the absent edge of a comma-ok lookup of the same key: an existing value can be replaced")
+	}
+	rejectsIn := func(b *ssa.BasicBlock) bool {
+		for i := 0; i < 4 && b != nil; i++ {
+			for _, in := range b.Instrs {
+				switch x := in.(type) {
+				case *ssa.Send:
+					if an.IsErrorType(x.X.Type()) && !an.IsNilConst(x.X) {
+						return true
+					}
+				case *ssa.Return:
+					for _, v := range x.Results {
+						if an.IsErrorType(v.Type()) && !an.IsNilConst(v) {
+							return true
+						}
+					}
+					return false
+				}
+			}
+			if len(b.Succs) != 1 {
+				return false
+			}
+			b = b.Succs[0]
+		}
+		return false
+	}
+	for _, lk := range lookups {
+		okv := okOf(lk)
+		if okv == nil {
+			continue
+		}
+		for _, cd := range an.CondsOn(fn, okv) {
+			if cd.Other != nil {
+				continue
+			}
+			exist := cd.Succ(true)
+			wrote, rejects := false, false
+			for b := range an.ReachBlocks(exist, nil) {
+				if !exist.Dominates(b) {
+					continue
+				}
+				for _, in := range b.Instrs {
+					if mu, ok := in.(*ssa.MapUpdate); ok && isFieldMap(field)(mu.Map) {
+						wrote = true
+					}
+				}
+				iff, ok := b.Instrs[len(b.Instrs)-1].(*ssa.If)
+				if !ok {
+					continue
+				}
+				if bin, ok := iff.Cond.(*ssa.BinOp); ok && (an.IsNilConst(bin.X) || an.IsNilConst(bin.Y)) {
+					continue // error plumbing, not a content comparison
+				}
+				for _, s := range b.Succs {
+					if rejectsIn(s) {
+						rejects = true
+					}
+				}
+			}
+			c.Check(an.FuncName(fn)+" existing-key branch of "+field+" never writes", lk.Pos(), !wrote,
+				"the branch taken when the key already exists assigns the data map: stored data can be replaced")
+			c.Check(an.FuncName(fn)+" existing-key branch of "+field+" rejects mismatches", lk.Pos(), rejects,
+				"no content comparison with a rejecting edge in the existing-key branch: conflicting data is silently accepted")
+		}
+	}
+}
